@@ -1,3 +1,149 @@
 package main
 
-func selftest(verif, repo string, args []string, verbose bool) int { return 0 }
+// Self-test of the machinery: must-fail mutants (property-breaking edits of /repo that still
+// compile and pass the test suite) and must-pass refactorings, each applied to a scratch copy
+// outside /repo and /verif which is deleted afterwards.
+
+import (
+	"encoding/json"
+	"fmt"
+	"os"
+	"os/exec"
+	"path/filepath"
+	"runtime"
+	"strings"
+	"time"
+)
+
+type mutantMeta struct {
+	ID     string   `json:"id"`
+	Patch  string   `json:"patch"`
+	Props  []string `json:"props"`
+	Expect string   `json:"expect"` // substring of a failing obligation name ("" = any)
+	Kind   string   `json:"kind"`   // "mutant" (must fail) or "refactor" (must pass)
+	Note   string   `json:"note"`
+}
+
+func selftest(verif, repo string, args []string, verbose bool) int {
+	data, err := os.ReadFile(filepath.Join(verif, "selftest", "corpus.json"))
+	if err != nil {
+		fmt.Println("selftest: no corpus:", err)
+		return 1
+	}
+	var corpus []mutantMeta
+	if err := json.Unmarshal(data, &corpus); err != nil {
+		fmt.Println("selftest: bad corpus.json:", err)
+		return 1
+	}
+	want := map[string]bool{}
+	for _, a := range args {
+		want[a] = true
+	}
+	bad := 0
+	total := 0
+	for _, m := range corpus {
+		if len(want) > 0 && !want[m.ID] {
+			matchesProp := false
+			for _, p := range m.Props {
+				if want[p] {
+					matchesProp = true
+				}
+			}
+			if !matchesProp {
+				continue
+			}
+		}
+		total++
+		ok, detail := runMutant(verif, repo, m, want, verbose)
+		status := "ok  "
+		if !ok {
+			status = "FAIL"
+			bad++
+		}
+		fmt.Printf("%s %-8s %-10s %s  %s\n", status, m.Kind, m.ID, strings.Join(m.Props, ","), detail)
+	}
+	fmt.Printf("selftest: %d of %d behaved as expected\n", total-bad, total)
+	if bad > 0 {
+		return 1
+	}
+	return 0
+}
+
+func scratchCopy(repo string) (string, error) {
+	dir, err := os.MkdirTemp("", "govc-scratch")
+	if err != nil {
+		return "", err
+	}
+	dst := filepath.Join(dir, "repo")
+	if out, err := exec.Command("cp", "-r", repo, dst).CombinedOutput(); err != nil {
+		os.RemoveAll(dir)
+		return "", fmt.Errorf("cp: %v %s", err, out)
+	}
+	return dst, nil
+}
+
+func runMutant(verif, repo string, m mutantMeta, want map[string]bool, verbose bool) (bool, string) {
+	dst, err := scratchCopy(repo)
+	if err != nil {
+		return false, err.Error()
+	}
+	defer os.RemoveAll(filepath.Dir(dst))
+	patch := filepath.Join(verif, "selftest", m.Patch)
+	if out, err := exec.Command("git", "-C", dst, "apply", "--whitespace=nowarn", patch).CombinedOutput(); err != nil {
+		return false, fmt.Sprintf("patch does not apply: %s", strings.TrimSpace(string(out)))
+	}
+	w, err := loadWorld(dst, verif)
+	if err != nil {
+		return false, "load: " + err.Error()
+	}
+	w.computeSweep()
+	kf := loadKnown(verif)
+	var failing []string
+	nObl := 0
+	genErrs := 0
+	for _, p := range m.Props {
+		run := generate(w, p)
+		genErrs += len(run.errs)
+		dischargeAll(run.obls, runtime.NumCPU(), 6*time.Second, 12*time.Second, false)
+		secondChance(run.obls, 6*time.Second, 12*time.Second)
+		nObl += len(run.obls)
+		for _, o := range run.obls {
+			if !o.ok() && kf.open(p, o.Name) == nil {
+				failing = append(failing, p+":"+o.Name)
+			}
+		}
+	}
+	switch m.Kind {
+	case "refactor":
+		if len(failing) > 0 || genErrs > 0 {
+			return false, fmt.Sprintf("false alarm: %s (generator errors: %d)", strings.Join(firstN(failing, 3), "; "), genErrs)
+		}
+		return true, fmt.Sprintf("no alarm (%d obligations)", nObl)
+	default:
+		if len(failing) == 0 && genErrs == 0 {
+			return false, fmt.Sprintf("NOT DETECTED (%d obligations all discharged)", nObl)
+		}
+		if m.Expect != "" {
+			hit := false
+			for _, f := range failing {
+				if strings.Contains(f, m.Expect) {
+					hit = true
+				}
+			}
+			if !hit {
+				return false, fmt.Sprintf("detected, but not by the expected obligation %q: %s", m.Expect, strings.Join(firstN(failing, 3), "; "))
+			}
+		}
+		if genErrs > 0 && len(failing) == 0 {
+			return true, "detected (fail closed: generator error)"
+		}
+		return true, "detected by " + strings.Join(firstN(failing, 2), "; ")
+	}
+}
+
+func firstN(s []string, n int) []string {
+	if len(s) > n {
+		return append(append([]string{}, s[:n]...), fmt.Sprintf("... (%d)", len(s)))
+	}
+	return s
+}
